@@ -125,8 +125,8 @@ def pat_str(p, pat, full_enum=None):
 
 
 def has_deref(e):
-    while e.k in ("field", "index"):
-        e = e.base
+    while e.k in ("field", "index", "len"):
+        e = e.base if e.k != "len" else e.e
     return e.k == "deref"
 
 
